@@ -73,7 +73,12 @@ def preconditioning_compute_steps_schedule(
       start_preconditioning_compute_steps
       + (1 - decay_factor) * end_preconditioning_compute_steps
   )
-  return jnp.maximum((preconditioning_compute_steps_t // 10) * 10, 1)
+  # An integer interval: `step % interval` with a float32 interval converts the
+  # int32 step to float32, which is inexact from step 2**24 on (refreshes land
+  # on steps that are not multiples of the interval, and multiples are skipped).
+  return jnp.maximum((preconditioning_compute_steps_t // 10) * 10, 1).astype(
+      jnp.int32
+  )
 
 
 def _default_zero_field():
